@@ -107,6 +107,32 @@ func xformFacts(f *facts) {
 		})
 	}
 	f.strs["xform_drop_rule"] = rules
+	f.note["xform_drop_counter_writes"] = "tdrop.go: every statement that writes totalMatched / totalDropped in the package, in source order"
+	var writes []string
+	if file := parse("transform/tdrop/tdrop.go"); file != nil {
+		inspect(file, func(n ast.Node) bool {
+			switch x := n.(type) {
+			case *ast.IncDecStmt:
+				if t := src(x.X); strings.HasSuffix(t, ".totalMatched") || strings.HasSuffix(t, ".totalDropped") {
+					writes = append(writes, src(x))
+				}
+			case *ast.AssignStmt:
+				for _, l := range x.Lhs {
+					if t := src(l); strings.HasSuffix(t, ".totalMatched") || strings.HasSuffix(t, ".totalDropped") {
+						writes = append(writes, strings.Join(strings.Fields(src(x)), " "))
+					}
+				}
+			case *ast.UnaryExpr:
+				if x.Op == token.AND {
+					if t := src(x.X); strings.HasSuffix(t, ".totalMatched") || strings.HasSuffix(t, ".totalDropped") {
+						writes = append(writes, "address-taken "+t)
+					}
+				}
+			}
+			return true
+		})
+	}
+	f.strs["xform_drop_counter_writes"] = writes
 	f.note["xform_truncate_builds_new_value"] = "ttruncate.go Transform: the truncated value is built in a buffer from make(), never through util.BytesFromString(value) / OverwriteNTruncate on the field's own memory"
 	f.bool["xform_truncate_builds_new_value"] = nil
 	if fd := fn("transform/ttruncate/ttruncate.go", "Transform", "truncateTransform"); fd != nil {
